@@ -18,7 +18,7 @@ def gen_configurator(rng, quick=True, int_leaf=False, nested=True):
         ids = rng.sample(items, min(n, len(items)))
         return [{"c": "str", "id": i} for i in ids]
     def rule(depth):
-        kind = rng.choice(["ccAny", "ccXor", "ccAnyD", "ccXorD", "AtMost", "All", "Any", "Imply", "Xor"])
+        kind = rng.choice(["ccAny", "ccXor", "ccAnyD", "ccXorD", "AtMost", "All", "Any", "Imply", "Xor", "ExactlyOne", "XNor", "AtLeast"])
         a = {}
         if rng.random() < 0.7: a["id"] = rid()
         if kind in ("ccAny", "ccXor", "ccAnyD", "ccXorD"):
@@ -30,8 +30,10 @@ def gen_configurator(rng, quick=True, int_leaf=False, nested=True):
                 a["default"] = [rng.choice([x["id"] for x in args if x["c"] == "str"])]
         elif kind == "AtMost":
             a.update(c="AtMost", v=rng.randint(1, 2), args=group(rng.randint(2, 3)))
-        elif kind in ("All", "Any", "Xor"):
+        elif kind in ("All", "Any", "Xor", "ExactlyOne", "XNor"):
             a.update(c=kind, args=group(rng.randint(1, 3)))
+        elif kind == "AtLeast":
+            a.update(c="AtLeast", v=rng.randint(1, 2), args=group(rng.randint(2, 3)))
         else:
             cond = {"c": rng.choice(["All", "Any"]), "args": group(rng.randint(1, 2))}
             cons = rule(0) if nested and rng.random() < 0.5 else {"c": rng.choice(["All", "Any"]), "args": group(rng.randint(1, 2))}
